@@ -432,13 +432,13 @@ def check(ctx):
         ctx.ob("graft", "floor:topic loop head", head is not None, nontrivial=False, msg=str(head))
         if head is None:
             continue
-        run_edges = hg.guard_edges(running)
+        run_edges = gs.guard(hg, running, head)
         ctx.ob("graft", "floor:backoff-running edge", len(run_edges) >= 1, nontrivial=False, msg=str(sorted(run_edges)))
         starts = gs.edge_targets(run_edges)
         region = hg.reachable(starts, stop_nodes=[head])
         ctx.ob("graft", "backed-off GRAFT never reaches the mesh insertion", bool(starts) and s.bb not in region, s.loc(),
                "from the `backoff_time > now` edge the insertion is %s within the same topic iteration" % ("unreachable" if s.bb not in region else "reachable"))
-        ok = hg.must_pass_edges(s.bb, hg.guard_edges(not_running), start=head)
+        ok = hg.must_pass_edges(s.bb, gs.guard(hg, not_running, head), start=head)
         ctx.ob("graft", "mesh insertion only without a running backoff", ok, s.loc(),
                "every path from the loop head to peers.insert passes `get_backoff_time == None` or `backoff_time > now` false")
         # the lookup is for this topic and this peer
